@@ -103,6 +103,10 @@ func canonicalOf(x psatoken.IClaims) string {
 		return t.CanonicalProfile
 	case *extprof.ExtP2Claims:
 		return t.CanonicalProfile
+	case *extprof.MixinClaims:
+		return t.CanonicalProfile
+	case *extprof.ExtOwnerClaims:
+		return t.CanonicalProfile
 	}
 	return "?"
 }
@@ -126,7 +130,7 @@ func runC07(c *mon.Ctx) {
 	}
 	c.SetAdd("registry_configurations", reg.name)
 	c.Count("config:" + reg.name)
-	c.Rule("one worker process per registry configuration (base profiles only; + P2-based extension; + P2- and P1-based extensions; + 8 further P2-based profiles sharing the JSON profile member; + 4 P2-based and 4 P1-based further profiles). Tokens = valid and rule-breaking claims-sets of every registered profile, serialised to CBOR and to JSON by the harness, with the profile claim: a registered name / absent / an unregistered name / the name of a profile not registered in this configuration / another base profile's name / a non-text value / present under both profiles' keys / null; plus sets that are valid only under the *other* base profile's rules (P2 with EAN-13 reference, P1 with short or no boot seed). Oracle (determinate cases): the dynamic type and canonical profile of the result of DecodeClaimsFromCBOR/JSON must be those registered under the declared name, P1 when nothing is declared, an error for an unregistered value; the validating decoders accept iff the set is valid under the declared profile's rules and an accepted token's GetProfile() returns the declared name (P1's when none); CBOR and JSON must agree; NewClaims(p) returns the registered type, reports p, and fails for unregistered names. In CBOR the profile claim is key 265, so a token carrying BOTH 265 and P1's -75000 is judged by 265 (P2 name -> P2 implementation, unregistered -> error); in JSON a quarter of the profile strings are spelled with escape sequences (same value). NO-VERDICT (counted; only 'never accepted under another profile' is asserted): null profile, P1 name under key 265, JSON documents carrying both members with one unregistered, both members present with one unknown, a P1-derived extension in CBOR (not selectable by design: its name lives under -75000). distinct_nontrivial = distinct (configuration, format, base, declaration class, validity class) signatures")
+	c.Rule("one worker process per registry configuration (base profiles only; + P2-based extension; + P2- and P1-based extensions; + 8 further P2-based profiles sharing the JSON profile member; + 4 P2-based and 4 P1-based further profiles). Tokens = valid and rule-breaking claims-sets of every registered profile, serialised to CBOR and to JSON by the harness, with the profile claim: a registered name / absent / an unregistered name / the name of a profile not registered in this configuration / another base profile's name / a non-text value / present under both profiles' keys / null; plus sets that are valid only under the *other* base profile's rules (P2 with EAN-13 reference, P1 with short or no boot seed). Oracle (determinate cases): the dynamic type and canonical profile of the result of DecodeClaimsFromCBOR/JSON must be those registered under the declared name, P1 when nothing is declared, an error for an unregistered value; the validating decoders accept iff the set is valid under the declared profile's rules and an accepted token's GetProfile() returns the declared name (P1's when none); CBOR and JSON must agree; NewClaims(p) returns the registered type, reports p, and fails for unregistered names. In CBOR the profile claim is key 265, so a token carrying BOTH 265 and P1's -75000 is judged by 265 (P2 name -> P2 implementation, unregistered -> error); in JSON a quarter of the profile strings are spelled with escape sequences (same value). A registered P1-derived profile named under key 265 of a P1-keyed token selects that implementation (valid iff the set is and -75000 is absent); a JSON null profile member on a profile-1 document declares nothing (profile 1 assumed). NO-VERDICT (counted; only 'never accepted under another profile' is asserted): null profile in CBOR / on a P2 document, P1 name under key 265, JSON documents carrying both members with one unregistered, both members present with one unknown, a P1-derived extension in CBOR (not selectable by design: its name lives under -75000). distinct_nontrivial = distinct (configuration, format, base, declaration class, validity class) signatures")
 	g := model.NewGen(c.Seed*4421 + int64(c.Shard))
 
 	// ---- NewClaims
@@ -310,6 +314,8 @@ func runC07(c *mon.Ctx) {
 		}
 		for _, format := range []string{"cbor", "json"} {
 			e := exp
+			var amOverride *model.Claims
+			mvOverride := -1    // -1: none; 0/1: the set is invalid/valid under the profile made determinate below
 			cborBothValid := -1 // -1: not a both-keys case; 0: content not understood by the selected profile; 1: content valid iff the set is
 			var input []byte
 			if format == "cbor" {
@@ -330,15 +336,37 @@ func runC07(c *mon.Ctx) {
 				case nullProfile:
 					w.Items = append(w.Items, refcbor.I(model.KeyOf(base, "profile")), refcbor.Null())
 				case key265onP1:
-					v265 := []string{model.P1Name, model.P2Name, "http://example.com/unregistered/1"}[g.R.Intn(3)]
+					cand265 := []string{model.P1Name, model.P2Name, "http://example.com/unregistered/1"}
+					for _, nm := range reg.names(1) {
+						if nm != model.P1Name {
+							// a registered P1-derived profile named under key 265: the one way
+							// to select such a profile in CBOR
+							cand265 = append(cand265, nm, nm)
+						}
+					}
+					v265 := cand265[g.R.Intn(len(cand265))]
 					w.Items = append(w.Items, refcbor.I(model.P2KProfile), refcbor.Tstr(v265))
+					switch v265 {
+					case model.P1Name, model.P2Name, "http://example.com/unregistered/1":
+					default:
+						e = c07Exp{"type", v265, "key 265 names a registered P1-derived profile (on a P1-keyed token)", v265}
+						// that implementation reads P1's keys; its own profile claim (-75000) is absent or
+						// says PSA_IOT_PROFILE_1, which is not this profile's name
+						amOverride = a.Clone()
+						amOverride.Canon = v265
+						mvOverride = 0
+						if a.Profile == nil && amOverride.Valid() {
+							mvOverride = 1
+						}
+						c.Count("p1-derived-selected-by-key-265")
+					}
 					switch v265 {
 					case model.P2Name:
 						e = c07Exp{"type", model.P2Name, "key 265 names profile 2 (on a P1-keyed token)", model.P2Name}
 						cborBothValid = 0
 					case model.P1Name:
 						// open encoding (profile-1 name under key 265)
-					default:
+					case "http://example.com/unregistered/1":
 						e = c07Exp{"error", "", "key 265 carries an unregistered profile value (on a P1-keyed token)", v265}
 					}
 				case nontext:
@@ -372,6 +400,17 @@ func runC07(c *mon.Ctx) {
 					}
 				case nullProfile:
 					ms = append(ms, model.Member{Name: model.JSONName(base, "profile"), Value: "null"})
+					if base == 1 {
+						// a null profile member declares nothing (JSON null = no value; the
+						// dispatcher documents "no registered profile member carries a
+						// non-null value" as the profile-1 fallback)
+						e = c07Exp{"type", model.P1Name, "JSON null profile member: profile 1 assumed", ""}
+						mvOverride = 0
+						if a.Valid() {
+							mvOverride = 1
+						}
+						c.Count("json-null-profile-member-on-p1")
+					}
 				case key265onP1:
 					ms = append(ms, model.Member{Name: "eat-profile", Value: `"http://example.com/unregistered/1"`})
 				case nontext:
@@ -413,6 +452,12 @@ func runC07(c *mon.Ctx) {
 					skipValidity = true
 				}
 			}
+			if mvOverride >= 0 {
+				mv, skipValidity = mvOverride == 1, false
+			}
+			if amOverride != nil {
+				am = amOverride
+			}
 			if format == "json" && base == 2 && decl == "absent" {
 				// P1 and P2 share most JSON member names: without profile member this
 				// document simply IS a profile-1 document (minus the members P1 does not know)
@@ -433,6 +478,7 @@ func runC07(c *mon.Ctx) {
 	c.Floor("determinate:type", 1000)
 	c.Floor("determinate:error", 1000)
 	c.Floor("no-verdict", 500)
+	c.Floor("json-null-profile-member-on-p1", 100)
 	c.Floor("accepted-by-validating-decoder", 1000)
 	c.Floor("rejected-valid-only-under-other-profile", 100)
 }
